@@ -1,2 +1,91 @@
-(* C14 - closing theorems only. *)
-From Slim Require Import Base Keys Model.
+(* C14 - Typed integer getters agree with Get.  Closing theorems only; the proofs
+   are in theories/GetIntProofs.v (model: theories/GetInt.v).
+
+   [geti w] is GetI8/GetI16/GetI32/GetI64 for w = 1/2/4/8: GetID, the leaf
+   ordinal, the slice Leaves.Bytes[ith*w : ith*w+w] of the packed leaf buffer
+   and the shift/or expression evaluated with Go's wrapping signed conversions
+   (a nil leaf array or a slice beyond the buffer are explicit panic outcomes).
+   [get] is Get on the same trie (the stored bytes of the leaf); the number Get's
+   caller sees is the decoder of the matching encoder applied to those bytes,
+   [int_decode c] of C15, which returns the encoded number (C15_int_generic).
+
+   The theorems hold for EVERY query string (indexed or not), every option
+   combination (the trie may have de-duplicated leaves), all key lists and all
+   value lists over the full range of the integer type.  A loaded trie is the
+   same model value as the trie it was marshalled from (C05), so the statement
+   covers loaded tries.  What ties [geti w] to the four Go functions, and the
+   widths 1/2/4/8 to their names, is the correspondence of this check. *)
+From Coq Require Import String.
+From Coq Require Import List ZArith NArith Bool Lia.
+From Coq.Strings Require Import Byte.
+From Slim Require Import Base Keys Model GetInt GetIntProofs.
+From Slim Require Encoders EncodersProofs.
+From SlimGen Require Gen_IntCodecs.
+Import ListNotations.
+
+(* the shift/or expression with Go's signed wrap-around is the little-endian
+   two's complement decode, for every width and all bytes *)
+Theorem C14_expression_is_signed_le_decode :
+  forall (w : nat) (bs : list byte), List.length bs = w -> 0 < w -> geti_value w bs = le_signed w bs.
+Proof. exact geti_value_decode. Qed.
+Print Assumptions C14_expression_is_signed_le_decode.
+
+(* on a trie whose values all have width w: for every query, the typed getter
+   computes exactly "Get, then decode"; Get's hit carries a supplied value and
+   the getter reports its decode *)
+Theorem C14_geti_is_get_then_decode :
+  forall (ropt : raw_opt) (keys : list key) (vs : list (list byte)) (T : trie) (w : nat) (q : key),
+    build (normalize ropt) keys (Some vs) = Ok T ->
+    List.length vs = List.length keys -> Forall (fun v => List.length v = w) vs -> 0 < w ->
+    geti w T q = get_then_decode w T q /\
+    ((get T q = Ok NotFound /\ geti w T q = Ok (0%Z, false)) \/
+     (exists i b, i < List.length keys /\ nth_error vs i = Some b /\
+                  get T q = Ok (Found (Some b)) /\ geti w T q = Ok (le_signed w b, true))).
+Proof. intros ropt keys vs T w q. exact (geti_agrees (normalize ropt) keys vs T w q). Qed.
+Print Assumptions C14_geti_is_get_then_decode.
+
+(* the property: values are numbers of the integer type encoded with the
+   matching (signed, little-endian, w-byte) encoder; for every query the getter
+   returns Get's found flag, and on a hit the number z whose encoding Get found,
+   which is the number Get's decoder returns *)
+Theorem C14_typed_getters_agree_with_get :
+  forall (c : Encoders.icodec) (ropt : raw_opt) (keys : list key) (zs : list Z) (T : trie) (q : key),
+    Encoders.ic_signed c = true -> Encoders.ic_big c = false -> 0 < Encoders.ic_width c ->
+    Forall (Encoders.in_range true (Encoders.ic_width c)) zs -> List.length zs = List.length keys ->
+    build (normalize ropt) keys (Some (map (Encoders.int_encode c) zs)) = Ok T ->
+    (get T q = Ok NotFound /\ geti (Encoders.ic_width c) T q = Ok (0%Z, false)) \/
+    (exists i z, i < List.length keys /\ nth_error zs i = Some z /\
+                 get T q = Ok (Found (Some (Encoders.int_encode c z))) /\
+                 Encoders.int_decode c (Encoders.int_encode c z) = Encoders.DOk (Encoders.ic_width c, z) /\
+                 geti (Encoders.ic_width c) T q = Ok (z, true)).
+Proof. intros c ropt keys zs T q. exact (geti_same_number c (normalize ropt) keys zs T q). Qed.
+Print Assumptions C14_typed_getters_agree_with_get.
+
+(* the codecs I8, I16, I32, I64 as read from encode/int.go and int8.go satisfy
+   the hypotheses, with widths 1, 2, 4, 8 *)
+Example C14_codecs_of_the_source :
+  map (fun n => match Encoders.find_src_codec n Gen_IntCodecs.g_int_codecs with
+                | Some g => let c := Encoders.codec_of_src g in
+                            Some (Encoders.ic_width c, Encoders.ic_signed c, Encoders.ic_big c)
+                | None => None
+                end) ["I8"; "I16"; "I32"; "I64"]%string
+  = [Some (1, true, false); Some (2, true, false); Some (4, true, false); Some (8, true, false)].
+Proof. vm_compute. reflexivity. Qed.
+
+(* non-vacuity: int16 values min, -1, max with a de-duplicated run; an absent
+   key that is a false positive returns the same number through both paths *)
+Definition ex_c16 : Encoders.icodec :=
+  {| Encoders.ic_width := 2; Encoders.ic_signed := true; Encoders.ic_big := false |}.
+Definition ex_keys : list key :=
+  [ ["097"%byte]; ["097"%byte; "098"%byte; "099"%byte]; ["098"%byte]; ["099"%byte] ].
+Definition ex_zs : list Z := [(-32768)%Z; (-1)%Z; (-1)%Z; 32767%Z].
+Definition ex_opt : raw_opt := {| r_dedup := None; r_inner := None; r_leaf := None; r_complete := None |}.
+Example C14_example :
+  exists T, build (normalize ex_opt) ex_keys (Some (map (Encoders.int_encode ex_c16) ex_zs)) = Ok T /\
+            geti 2 T ["097"%byte] = Ok ((-32768)%Z, true) /\
+            geti 2 T ["097"%byte; "109"%byte] = Ok ((-1)%Z, true) /\
+            get T ["097"%byte; "109"%byte] = Ok (Found (Some ["255"%byte; "255"%byte])) /\
+            geti 2 T ["099"%byte] = Ok (32767%Z, true) /\
+            geti 2 T ["098"%byte] = Ok (0%Z, false) /\
+            get T ["098"%byte] = Ok NotFound.
+Proof. vm_compute. eexists. repeat split. Qed.
